@@ -50,7 +50,33 @@ class Recorder:
                                       "stack": [[a, sorted(c)] for a, c in stack]}})
 
 
-def record_run(tid, g1, g2, labels=None):
+NOATOM, NOPAR = -999999999, 2
+
+
+def _dj(d):
+    return [type(d).__name__, [NOATOM if a is None else a for a in d.atoms], NOPAR if d.parity is None else d.parity]
+
+
+def _extras(g, stereo, changes):
+    """descriptors, stereo changes and bond roles of a graph in the instance format of Trace_VF2"""
+    st, sc, rl = [], [], []
+    if stereo:
+        st = [_dj(d) for d in g.stereo.values()]
+    if changes:
+        for dct in list(g.atom_stereo_changes.values()) + list(g.bond_stereo_changes.values()):
+            for ch, d in dct.items():
+                if d is not None:
+                    sc.append([ch.value, _dj(d)])
+    if hasattr(g, "get_formed_bonds"):
+        for b in g.bonds:
+            a, c = tuple(b)
+            r = g.get_bond_attribute(a, c, "reaction")
+            if r is not None:
+                rl.append([sorted((a, c)), r.value])
+    return st, sc, rl
+
+
+def record_run(tid, g1, g2, labels=None, stereo=False, changes=False):
     """run the real enumerator to the end with the tracer installed; returns the ndjson record (or None when the
     enumerator returned before the loop: failed pre-checks, empty graphs)"""
     from stereomolgraph.algorithms import isomorphism as I
@@ -61,7 +87,7 @@ def record_run(tid, g1, g2, labels=None):
     old = I._verif_tracer
     I._verif_tracer = rec
     try:
-        ys = list(I.vf2pp_all_isomorphisms(g1, g2, atom_labels=labels, stereo=False))
+        ys = list(I.vf2pp_all_isomorphisms(g1, g2, atom_labels=labels, stereo=stereo, stereo_change=changes))
     finally:
         I._verif_tracer = old
     if rec.order is None:
@@ -79,7 +105,9 @@ def record_run(tid, g1, g2, labels=None):
             "adj2": [[a, sorted(n)] for a, n in sorted(p.g2_nbrhd.items())],
             "lab1": [[a, lab(p.g1_labels[a])] for a in sorted(p.g1_nbrhd)],
             "lab2": [[a, lab(p.g2_labels[a])] for a in sorted(p.g2_nbrhd)],
-            "order": rec.order}
+            "order": rec.order, "stereo": bool(stereo), "changes": bool(changes)}
+    inst["st1"], inst["sc1"], inst["rl1"] = _extras(g1, stereo, changes)
+    inst["st2"], inst["sc2"], inst["rl2"] = _extras(g2, stereo, changes)
     return {"tid": tid, "inst": inst, "events": rec.events, "truncated": rec.truncated,
             "yields": [sorted([a, b] for a, b in y.items()) for y in ys]}, ys
 
@@ -162,12 +190,98 @@ def corpus_pairs(rnd, limit):
     return out
 
 
+def family_pairs(rnd, fams, per_family):
+    """members of the MC_IsoPairs families (stereo molecules, reaction graphs with roles and stereo changes) built
+    with two different identifier sets; pairs of members with the same atom count (isomorphic, mirror images,
+    other ligand elements, other roles ...)"""
+    from . import iso, model
+    from .model import IdMap, build
+    model.init()
+    out = []
+    for fam in fams:
+        def produce(fam=fam):
+            d = tempfile.mkdtemp(prefix="smg-vf2f-")
+            try:
+                cfg = os.path.join(d, "f.cfg")
+                open(cfg, "w").write(iso.cfg_text(fam, 1, False, False))
+                res = common.run_tlc("MC_IsoPairs", cfg=cfg, workers=2, prefixes=("G",), timeout=900)
+            finally:
+                shutil.rmtree(d, ignore_errors=True)
+            common.tlc_ok(res, "MC_IsoPairs " + fam)
+            return [o["g"] for _, o in res.lines]
+        gs = common.cached_cases("vf2fam-" + fam, ["MC_IsoPairs.tla", "SMGFamilies.tla", "SMGGraph.tla", "SMGStereo.tla", "SMGEmit.tla",
+                                                    "SMGRefine.tla", "SMGIso.tla"], produce)
+        gs = [g for g in gs if g["atoms"]]
+        # stereo changes with an unspecified parity are compared through Python set semantics by the code: not modelled
+        def has_nopar_change(g):
+            return any(dd[1][2] == NOPAR for k in ("ach", "bch") for x in g[k] for dd in x[-1])
+        gs = [g for g in gs if not has_nopar_change(g)]
+        if not gs:
+            continue
+        idA = IdMap({k + 1: v for k, v in enumerate(rnd.sample(range(0, 60), 9))})
+        idB = IdMap({k + 1: v for k, v in enumerate(rnd.sample(range(100, 900), 9))})
+        n = 0
+        tries = 0
+        while n < per_family and tries < per_family * 20:
+            tries += 1
+            g = rnd.choice(gs)
+            h = g if rnd.random() < 0.4 else rnd.choice(gs)
+            if len(g["atoms"]) != len(h["atoms"]):
+                continue
+            kind = g["kind"]
+            try:
+                x, y = build(g, idA), iso.shuffled_build(h, idB, rnd)
+            except Exception:
+                continue
+            tag = ""
+            if kind in ("SMG", "SCRG") and rnd.random() < 0.3:
+                # one side loses a descriptor (a stereo centre against an unspecified one)
+                side = rnd.choice([x, y])
+                keys = list(side.atom_stereo) + list(side.bond_stereo)
+                if keys:
+                    k = rnd.choice(keys)
+                    (side.delete_atom_stereo if isinstance(k, int) else side.delete_bond_stereo)(k)
+                    tag = "-descr"
+            out.append(("family:" + fam + tag, x, y, None, kind in ("SMG", "SCRG"), kind == "SCRG"))
+            n += 1
+    return out
+
+
+def stereo_corpus_pairs(rnd, limit):
+    """corpus molecules with stereo (imported through RDKit) against a renumbered import and against the enantiomer"""
+    import stereomolgraph as smg
+    from . import rdk
+    out = []
+    cs = [c for c in rdk.corpus() if "@" in c[1] or "/" in c[1]]
+    rnd.shuffle(cs)
+    for name, smi in cs:
+        if len(out) >= limit:
+            break
+        m = rdk.with_hs_and_maps(smi)
+        if m is None or m.GetNumAtoms() > 40:
+            continue
+        try:
+            g = smg.StereoMolGraph.from_rdmol(m)
+            m2, _ = rdk.renumber(m, rnd)
+            h = smg.StereoMolGraph.from_rdmol(m2)
+            h = h.relabel_atoms({a: a + 500 for a in h.atoms})
+        except Exception:
+            continue
+        out.append(("stereo-corpus:" + name, g, h, None, True, False))
+        out.append(("stereo-corpus-mirror:" + name, g, h.enantiomer(), None, True, False))
+    return out
+
+
 def record_all(pairs, start_tid=1):
     recs, skipped = [], 0
     tid = start_tid
-    for kind, a1, b1, a2, b2, labels in pairs:
-        g1, g2 = _mg(a1, b1), _mg(a2, b2)
-        rec, ys = record_run(tid, g1, g2, labels)
+    for item in pairs:
+        if len(item) == 6 and isinstance(item[1], list):
+            kind, a1, b1, a2, b2, labels = item
+            g1, g2, stereo, changes = _mg(a1, b1), _mg(a2, b2), False, False
+        else:
+            kind, g1, g2, labels, stereo, changes = item
+        rec, ys = record_run(tid, g1, g2, labels, stereo, changes)
         if rec is None:
             skipped += 1
             continue
@@ -220,7 +334,11 @@ def collect(tier, rep, seed):
     """records real runs, validates them in both modes, reports through rep; returns a coverage dict"""
     rnd = random.Random(seed * 7919 + 5)
     n_small, nmax, n_corpus = (400, 6, 6) if tier == "quick" else (6000, 7, 60)
-    pairs = random_pairs(rnd, n_small, nmax) + corpus_pairs(rnd, n_corpus)
+    fams = ["smg3", "two", "twop", "ethene", "star4lp", "tbp", "crg3", "prismr", "scrg2", "ethener", "sn2"]
+    if tier != "quick":
+        fams += ["star5", "lp2", "oct", "star5r", "cuber", "prismsr", "nopar"]
+    pairs = (random_pairs(rnd, n_small, nmax) + corpus_pairs(rnd, n_corpus)
+             + family_pairs(rnd, fams, 40 if tier == "quick" else 400) + stereo_corpus_pairs(rnd, 8 if tier == "quick" else 60))
     recs, skipped = record_all(pairs)
     if len(recs) < len(pairs) // 4:
         raise MachineryError(f"VF2 tracer recorded only {len(recs)} runs of {len(pairs)} (hook missing?)")
@@ -267,14 +385,60 @@ def collect(tier, rep, seed):
     nbfs = sum(1 for t in verd.values() if not t["bfs"])
     if nbfs:
         rep.note("%d recorded matching orders are not breadth-first component by component (affects speed only)" % nbfs)
-    return {"runs": len(recs), "skipped_before_loop": skipped, "replayed": len(replayable), "accepted": accepted, "diverged": len(diverged),
+    outcomes = {}
+    kinds = {}
+    for r in recs:
+        k = ("stereo" if r["inst"]["stereo"] else "plain") + ("+changes" if r["inst"]["changes"] else "") + ("+roles" if r["inst"]["rl1"] else "")
+        kinds[k] = kinds.get(k, 0) + 1
+        for e in r["events"]:
+            o = e["ev"] + (":" + e["out"] if e["out"] else "")
+            outcomes[o] = outcomes.get(o, 0) + 1
+    return {"runs": len(recs), "run_kinds": kinds, "event_kinds": outcomes, "skipped_before_loop": skipped, "replayed": len(replayable), "accepted": accepted, "diverged": len(diverged),
             "events": events, "states": res1.distinct + res2.distinct, "generated": res1.generated + res2.generated,
             "largest_instance": max(len(r["inst"]["n1"]) for r in recs)}
 
 
+SPEC_FILES = ["VF2.tla", "MC_VF2.tla", "MC_VF2S.tla", "SMGFamilies.tla", "SMGIso.tla", "SMGGraph.tla", "SMGStereo.tla",
+              "SMGFigures.tla", "SMGGroups.tla", "MC_VF2.cfg", "MC_VF2_thorough.cfg"]
+S_FAMS = {"quick": ["mg3", "smg3", "two", "twop", "ethene", "star4lp", "lp2", "tbp", "crg2", "prismr", "scrg2", "ethener", "sn2"],
+          "thorough": ["mg3", "smg3", "two", "twop", "ethene", "star4lp", "lp2", "tbp", "oct", "star5", "crg2", "crg3", "prismr",
+                       "prismsr", "cuber", "scrg2", "ethener", "sn2", "star5r"]}
+S_MODS = {"star5": 7, "star5r": 11, "crg3": 1, "oct": 1}
+
+
+def _mc_family(fam):
+    d = tempfile.mkdtemp(prefix="smg-vf2s-")
+    try:
+        cfg = os.path.join(d, "s.cfg")
+        open(cfg, "w").write("SPECIFICATION Spec\nCONSTANTS\n  Fam = \"%s\"\n  SampleMod = %d\n  OrderMod = 3\n"
+                             "INVARIANT IBookkeeping\nINVARIANT IPartialIso\nINVARIANT IStackShape\nINVARIANT IAgreesWithIsos\n"
+                             "CHECK_DEADLOCK FALSE\n" % (fam, S_MODS.get(fam, 1)))
+        res = common.run_tlc("MC_VF2S", cfg=cfg, workers=8, timeout=3000, heap="6g")
+    finally:
+        shutil.rmtree(d, ignore_errors=True)
+    common.tlc_ok(res, "MC_VF2S " + fam)
+    return {"fam": fam, "states": res.distinct, "generated": res.generated, "wall": round(res.wall, 1)}
+
+
 def model_check(tier):
-    """MC_VF2: all pairs of labelled graphs on <= NMax atoms x all admissible matching orders x all candidate orders"""
-    cfg = "MC_VF2.cfg" if tier == "quick" else "MC_VF2_thorough.cfg"
-    res = common.run_tlc("MC_VF2", cfg=str(common.SPEC / cfg), workers=16, timeout=3000, heap="8g")
-    common.tlc_ok(res, "MC_VF2")
-    return {"states": res.distinct, "generated": res.generated, "wall": round(res.wall, 1), "cfg": cfg}
+    """Statements about the specification alone (they do not depend on the code, so the verdicts are cached under the
+    digest of the specification files; ./check setup warms the quick ones):
+      MC_VF2 : all pairs of labelled graphs on <= NMax atoms x every matching order (x every order of taking candidates):
+               bookkeeping, partial isomorphism, stack shape, exactness;
+      MC_VF2S: the loop with its role / stereo / stereo-change rules on pairs of members of the case families; its result
+               is the set of witnesses of SMGIso!Isos, each found once."""
+    def produce():
+        cfg = "MC_VF2.cfg" if tier == "quick" else "MC_VF2_thorough.cfg"
+        res = common.run_tlc("MC_VF2", cfg=str(common.SPEC / cfg), workers=16, timeout=3000, heap="8g")
+        common.tlc_ok(res, "MC_VF2")
+        out = [{"fam": "(all graphs) " + cfg, "states": res.distinct, "generated": res.generated, "wall": round(res.wall, 1)}]
+        with mp_pool(3) as pool:
+            out += pool.map(_mc_family, S_FAMS[tier])
+        return out
+    rows = common.cached_cases("vf2-model-" + tier, SPEC_FILES, produce)
+    return {"states": sum(r["states"] for r in rows), "generated": sum(r["generated"] for r in rows), "runs": rows}
+
+
+def mp_pool(n):
+    import multiprocessing as mp
+    return mp.Pool(n)
